@@ -1368,3 +1368,26 @@ package router
 //@   requires r != nil && msg != nil
 //@   callsite cleanSessionDetails : [cleaned-from-the-session-details] arg0 == r && arg1 == sess.Details
 //@   returnsite : [answer-carries-the-cleaned-details] is(result, *wamp.Yield) ==> len(result.(*wamp.Yield).Arguments) == 1 && result.(*wamp.Yield).Arguments[0] == box(output)
+
+// ---------------------------------------------------------------------------
+// The default publish filter: exclude / eligible lists by session id and by
+// any session attribute (C01)
+
+//@ pred strAttr(d wamp.Dict, a string) = (a in d && is(d[a], string)) ? d[a].(string) : ((a in d && is(d[a], wamp.URI)) ? string(d[a].(wamp.URI)) : "")
+//@ pred plainAttr(d wamp.Dict, a string) = !(a in d) || !is(d[a], []byte)
+//@ pred attrListed(d wamp.Dict, a string, l []string) = strAttr(d, a) != "" && strAttr(d, a) in l
+
+//@ func (f *simplePublishFilter) Allowed
+//@   props C01
+//@   perreturn
+//@   requires f != nil && sub != nil
+//@   pure
+//@   ensures [excluded-id] sub.ID in f.blIDs ==> !result
+//@   ensures [not-eligible-id] len(f.wlIDs) != 0 && !(sub.ID in f.wlIDs) ==> !result
+//@   ensures [excluded-attribute] forall a string :: a in f.blMap && plainAttr(sub.Details, a) && attrListed(sub.Details, a, f.blMap[a]) ==> !result
+//@   ensures [not-eligible-attribute] forall a string :: a in f.wlMap && plainAttr(sub.Details, a) && !attrListed(sub.Details, a, f.wlMap[a]) ==> !result
+//@   ensures [allowed-otherwise] !(sub.ID in f.blIDs) && (len(f.wlIDs) == 0 || sub.ID in f.wlIDs) && (forall a string :: a in f.blMap ==> plainAttr(sub.Details, a) && !attrListed(sub.Details, a, f.blMap[a])) && (forall a string :: a in f.wlMap ==> plainAttr(sub.Details, a) && attrListed(sub.Details, a, f.wlMap[a])) ==> result
+//@   loop range f.blMap
+//@     invariant [none-excluded-so-far] forall a string :: visited(a) && plainAttr(details, a) ==> !attrListed(details, a, f.blMap[a])
+//@   loop range f.wlMap
+//@     invariant [all-eligible-so-far] forall a string :: visited(a) && plainAttr(details, a) ==> attrListed(details, a, f.wlMap[a])
